@@ -252,6 +252,8 @@ def _try_num(items):
     r = _try(items)
     r["obligation"] = "literals.LN1"
     r["replay_kind"] = "numbers"
+    if "sql" not in r:
+        r["failing"] = True   # every spelling of the list is a number PRQL accepts: an error is a lost literal
     return r
 
 
